@@ -4,14 +4,17 @@ A = ['socket modelled by send(): each call returns any k in [1,len] or -1 with e
 def jobs(tier, ctx):
     out = []
     win = ['WIN=3'] if tier == 'quick' else []
+    # add_message over the whole 4096-byte ring does not finish in 900 s: the thorough tier widens the wrap windows to 8 and
+    # adds 3-byte messages; flush_message is decided over the whole ring in the thorough tier
+    awin = ['WIN=3'] if tier == 'quick' else ['WIN=8']
     out.append(dict(name='flush_step', srcs=['@harness/C14/ring.c'], stubs=BASE, defs=['MODE_FLUSH=1'] + win, unwind=5, unwindset=['setup.0:4097' if tier != 'quick' else 'setup.0:40'],
                     targets=['flush_message'], timeout=900, mem_gb=16, opt_witness=['partial_writes', 'sent_across_wrap_in_two_chunks', 'dead'],
                     desc='flush_message on an arbitrary valid ring: chunks are the oldest unsent bytes in order, never across the wrap, consumer/length advance by exactly what send accepted',
                     inputs='consumer, length (symbolic%s), send results/errnos, probe index' % (' inside the wrap windows' if win else ' over the whole 4096 ring'), assumptions=A))
     for nm in ([2] if tier == 'quick' else [2, 3]):
-      for (cs, ls) in ([(0, 0), (0, 1), (1, 0), (1, 1)] if win else [(None, None)]):
-        out.append(dict(name='add_step.n%d' % nm + ('.c%d_l%d' % (cs, ls) if win else ''), srcs=['@harness/C14/ring.c'], stubs=BASE, defs=['MODE_ADD=1', 'NM=%d' % nm] + win + (['CSIDE=%d' % cs, 'LSIDE=%d' % ls] if win else []), unwind=2 * nm + 3, unwindset=['setup.0:4097' if tier != 'quick' else 'setup.0:40'],
-                        targets=['add_message', 'flush_message'], timeout=900, mem_gb=(4 if win else 16), opt_witness=['tail_dropped', 'flushed_then_appended', 'crlf_inserted'],
-                        desc='add_message of any %d-byte text (incl. LF) on an arbitrary valid ring: CRLF translation, appended after the old data in order, old unsent data intact, only the tail dropped and only when full or dead' % nm,
-                        inputs='consumer, length, message bytes, send results/errnos, probe index', assumptions=A))
+      for (cs, ls) in [(0, 0), (0, 1), (1, 0), (1, 1)]:
+        out.append(dict(name='add_step.n%d.c%d_l%d' % (nm, cs, ls), srcs=['@harness/C14/ring.c'], stubs=BASE, defs=['MODE_ADD=1', 'NM=%d' % nm] + awin + ['CSIDE=%d' % cs, 'LSIDE=%d' % ls], unwind=2 * nm + 3, unwindset=['setup.0:60'],
+                        targets=['add_message', 'flush_message'], timeout=(900 if tier == 'quick' else 2400), mem_gb=4, opt_witness=['tail_dropped', 'flushed_then_appended', 'crlf_inserted'],
+                        desc='add_message of any %d-byte text (incl. LF) on an arbitrary valid ring (indices inside the wrap windows): CRLF translation, appended after the old data in order, old unsent data intact, only the tail dropped and only when full or dead' % nm,
+                        inputs='consumer, length (inside the %s-wide wrap windows), message bytes, send results/errnos, probe index' % awin[0][4:], assumptions=A))
     return out
